@@ -309,16 +309,19 @@ func randEntropy(r *rng.R) (e [16]byte) { r.Bytes(e[:]); return }
 func runC20(c *hx.Ctx) {
 	res := c.Res
 	res.Rule = "entropies: BIP-39 vectors, all-zero/all-one, every single-bit pattern and its complement, uniform samples; phrases: every value of 3 word positions (all 12 in thorough; the last position always) on a seed-dependent valid base phrase, uniform 12-index sequences, forced-valid and off-by-one-nibble sequences, wrong counts, non-list tokens, whitespace variants; derivation over boundary and random indices. non-trivial := encode of a non-zero entropy, or decode of exactly twelve list words (reaches the checksum comparison); distinct by entropy / token text"
-	h := &h20{c: c, res: res, index: map[string]int{}, keySeen: map[string]string{}, maxCoq: c.Scale(4000, 60000)}
+	h := &h20{c: c, res: res, index: map[string]int{}, keySeen: map[string]string{}, maxCoq: c.Scale(4000, 100000)}
 	h.words = wallet.VerifBIP39WordList()
 	if !checkWordList(h) {
 		res.WriteCases("Run.Run_C20", nil)
 		return
 	}
 
+	res.Explored = map[string]any{}
+	mod := tieModel(h) // regenerate the model from seed.go, compare with Seed.v, compile SeedGen.v
+
 	if c.Replay != "" {
 		h.replay(c.Replay)
-		res.WriteCases("Run.Run_C20", h.cases)
+		res.WriteCases(mod, h.cases)
 		return
 	}
 	r := c.R
@@ -359,7 +362,7 @@ func runC20(c *hx.Ctx) {
 	}
 
 	// 3. uniform entropies: the first ones also go to Coq
-	nCoq, nGo := c.Scale(250, 20000), c.Scale(4000, 1000000)
+	nCoq, nGo := c.Scale(250, 12000), c.Scale(4000, 1000000)
 	for i := 0; i < nGo; i++ {
 		e := randEntropy(r)
 		h.checkEncode(e, i < nCoq, "uniform")
@@ -374,7 +377,8 @@ func runC20(c *hx.Ctx) {
 	if c.Thorough {
 		positions = []int{0, 1, 2, 3, 4, 5, 6, 7, 8, 9, 10, 11}
 	}
-	res.Explored = map[string]any{"sweep_positions": positions, "sweep_base": strings.Join(texts(h.wordTokens(base)), " ")}
+	res.Explored["sweep_positions"] = positions
+	res.Explored["sweep_base"] = strings.Join(texts(h.wordTokens(base)), " ")
 	for _, p := range positions {
 		idx := base
 		for v := 0; v < 2048; v++ {
@@ -419,7 +423,7 @@ func runC20(c *hx.Ctx) {
 	res.Sample(map[string]any{"entropy": "00000000000000000000000000000000", "phrase": first(realEncode(zero))})
 	e := randEntropy(r)
 	res.Sample(map[string]any{"entropy": hex.EncodeToString(e[:]), "phrase": first(realEncode(e)), "indices": refEncode(e), "checksum_nibble": refNibble(e)})
-	res.WriteCases("Run.Run_C20", h.cases)
+	res.WriteCases(mod, h.cases)
 }
 
 func first(s string, _ string) string { return s }
